@@ -428,7 +428,7 @@ func enumC10(t *testing.T, tier string) (int, func(i int) *Plan) {
 	}
 	type item struct {
 		base, step int
-		kind      string
+		kind       string
 	}
 	var items []item
 	for b := 0; b < nb; b++ {
